@@ -19,6 +19,7 @@ package main
 
 import (
 	"fmt"
+	"os"
 	"runtime"
 	"strings"
 	"sync"
@@ -356,19 +357,29 @@ func runCase(wl *workload, base *baseline, cc crashCase) (string, int) {
 		return what, recCommits
 	}
 	// convergence: feed everything again
+	if what := r.converge(base.finalTip, base.finalUtxo); what != "" {
+		return what, recCommits
+	}
+	return "", recCommits
+}
+
+// converge feeds the whole workload to the recovered node again and compares the
+// result with the uninterrupted run's final tip and UTXO set (shared by the
+// commit-prefix phase and the crash-image phase).
+func (r *run) converge(finalTip chainhash.Hash, finalUtxo lab.UtxoSet) string {
 	if _, problem := r.deliver(nil); problem != "" {
-		return "re-feeding the workload after recovery: " + problem, recCommits
+		return "re-feeding the workload after recovery: " + problem
 	}
 	best := r.c.BC.BestSnapshot()
-	if best.Hash != base.finalTip {
+	if best.Hash != finalTip {
 		cause := "other"
 		// diagnosis: every block of the uninterrupted final chain beyond the
 		// recovered tip is stored and indexed, but re-delivery is refused as a
 		// duplicate, so it is never connected (crash fell between the block-store
 		// commit and the connect commit)
-		ft := wl.w.ByHash[base.finalTip]
+		ft := r.wl.w.ByHash[finalTip]
 		onRecovered := map[chainhash.Hash]bool{}
-		for _, b := range wl.w.ByHash[best.Hash].Chain() {
+		for _, b := range r.wl.w.ByHash[best.Hash].Chain() {
 			onRecovered[b.Hash] = true
 		}
 		stuck := 0
@@ -388,29 +399,29 @@ func runCase(wl *workload, base *baseline, cc crashCase) (string, int) {
 			}
 		}
 		_ = extends
-		if stuck > 0 && ft.Height > wl.w.ByHash[best.Hash].Height {
+		if stuck > 0 && ft.Height > r.wl.w.ByHash[best.Hash].Height {
 			cause = "stored-but-unconnected-block-is-refused-as-duplicate"
 		}
-		return fmt.Sprintf("after re-feeding the workload the tip is %s, the uninterrupted run ended at %s [cause: %s]", wl.w.ByHash[best.Hash].Name, wl.w.ByHash[base.finalTip].Name, cause), recCommits
+		return fmt.Sprintf("after re-feeding the workload the tip is %s, the uninterrupted run ended at %s [cause: %s]", r.wl.w.ByHash[best.Hash].Name, r.wl.w.ByHash[finalTip].Name, cause)
 	}
-	for _, o := range wl.w.Universe {
+	for _, o := range r.wl.w.Universe {
 		e, err := r.c.BC.FetchUtxoEntry(o)
 		if err != nil {
-			return "FetchUtxoEntry after convergence: " + err.Error(), recCommits
+			return "FetchUtxoEntry after convergence: " + err.Error()
 		}
-		want, has := base.finalUtxo[o]
+		want, has := finalUtxo[o]
 		got := e != nil && !e.IsSpent()
 		if got != has || (has && !coinOf(e).Equal(want)) {
-			return fmt.Sprintf("after convergence utxo %v differs from the uninterrupted run", o), recCommits
+			return fmt.Sprintf("after convergence utxo %v differs from the uninterrupted run", o)
 		}
 	}
-	return "", recCommits
+	return ""
 }
 
 func main() {
 	r := ev.Start("C04")
-	r.Rule("for each workload x utxo-cache size: crash before every durable commit k (db.Update) of the run, reopen; nested: crash before every commit j of that recovery, reopen again; a case (workload, cache, k, j) is non-trivial when the crash point was reached")
-	r.Assume("ffldb makes a prefix of the committed updates durable and reopens to it (C05's subject); crashes are placed between commits")
+	r.Rule("for each workload x utxo-cache size: crash before every durable commit k (db.Update) of the run, reopen; nested: crash before every commit j of that recovery, reopen again; a case (workload, cache, k, j) is non-trivial when the crash point was reached. Part 2: for each workload x cache x ffldb flush regime the block-file I/O is recorded; every log prefix x every subset (capped) of the writes not covered by a later Sync lost x last write torn gives a crash image (block files + the leveldb state of the newest flush in the prefix); every distinct image is opened with database.Open + blockchain.New and judged by the same oracle")
+	r.Assume("part 1: ffldb makes a prefix of the committed updates durable and reopens to it; crashes are placed between commits (part 2 drops this assumption)")
 	r.Assume("lab scripts are OP_TRUE / OP_RETURN")
 	_ = wire.OutPoint{}
 
@@ -421,6 +432,16 @@ func main() {
 		byName[w.Name] = w
 	}
 	if r.ReplayPath != "" {
+		var kind struct {
+			Kind string `json:"kind"`
+		}
+		r.LoadReplay(&kind)
+		if kind.Kind == "img" { // part 2: one crash image
+			var ic imgCase
+			r.LoadReplay(&ic)
+			replayImage(r, ic)
+			r.Finish(false)
+		}
 		var cc crashCase
 		r.LoadReplay(&cc)
 		wl := byName[cc.Workload]
@@ -453,6 +474,9 @@ func main() {
 	stats := map[string]interface{}{}
 	var mu sync.Mutex
 	for _, wl := range wls {
+		if os.Getenv("C04_SKIP_PART1") != "" { // development aid
+			break
+		}
 		for _, cache := range caches {
 			base, p := runBaseline(wl, cache)
 			if p != "" {
@@ -542,6 +566,10 @@ func main() {
 		r.Cap("time box hit; see per-workload counts")
 	}
 	r.Set("workloads", stats)
+	// part 2: crashes at any point of the block-file I/O (crashimg.go)
+	if !phaseImages(r, wls, long) {
+		complete = false
+	}
 	r.Finish(complete)
 }
 
